@@ -20,6 +20,9 @@ pub fn random_cfg() -> Cfg {
     c.allow_c = true;
     c.expr.random = true;
     c.expr.lazy_hazards = false;
+    c.expr.radix = false;
+    // whether a variable beats an output and which call's value is seen is C04's business
+    c.vars_like_signals = false;
     c
 }
 
@@ -89,6 +92,8 @@ impl Property for C17 {
     fn run(&self, s: &Streams) -> CaseOut {
         let mut out = CaseOut::new();
         let mut built = gen_case(&mut Ch::new(&s[0]), &random_cfg());
+        // operator binding is C08's business: every operand is parenthesised
+        parenthesise_program(&mut built.prog.stmts);
         let mut dch = Ch::new(&s[2]);
         if feats(&built).randoms == 0 {
             // construction, not rejection: give the program a draw at the very front
@@ -111,6 +116,7 @@ impl Property for C17 {
             2 => u64::MAX,
             _ => dch.u64(),
         };
+        let spec = DriverSpec { constant: true, ..spec };
         render_case(&mut out, &text, &built.sigs, Some(&spec));
         out.put("seed", format!("{seed}"));
         let f = feats(&built);
